@@ -8,8 +8,86 @@ ASSUME_COMMON = [
 ]
 
 BOTH = {"quick": ["mon-chk"], "thorough": ["mon-chk", "mon-rel"]}
+ALWAYS_BOTH = {"quick": ["mon-chk", "mon-rel"], "thorough": ["mon-chk", "mon-rel"]}
+
+
+def profile_diff(c):
+    """Cross-profile comparison: every case's outcome digest (values bit-exact, all errors one class)
+    must be the same in the overflow-checking build and in the release-like build."""
+    import glob, os
+    per = {}
+    for prof in ("mon-chk", "mon-rel"):
+        d = {}
+        for f in glob.glob(os.path.join(c["wdir"], "digest-%s-*.txt" % prof)):
+            for line in open(f):
+                parts = line.split()
+                if len(parts) == 3:
+                    d[(parts[0], parts[1])] = parts[2]
+        per[prof] = d
+    a, b = per["mon-chk"], per["mon-rel"]
+    common = set(a) & set(b)
+    diff = sorted(k for k in common if a[k] != b[k])
+    c["extra_cov"]["profile_diff"] = {"cases_compared": len(common), "cases_differing": len(diff),
+                                      "only_in_one_profile": len(set(a) ^ set(b))}
+    c["counters"]["profile_cases_compared"] = len(common)
+    for (o, i) in diff[:5]:
+        sig = "profile-diff|stage=%s" % o
+        c["viol_counts"][sig] = c["viol_counts"].get(sig, 0) + 1
+        if sig not in c["viols"]:
+            c["viols"][sig] = {"sig": sig, "detail": "outcome digest of case %s:%s differs between mon-chk (overflow-checks on) and mon-rel (off)" % (o, i),
+                               "stage": "%s:?" % o, "idx": int(i), "case": {"stage_ord": o, "idx": i}, "profile": "mon-rel"}
 
 CONFIG = {
+    "C13": {
+        "profiles": BOTH,
+        "rule": "one evaluation = one literal compiled and evaluated (or rejected); distinct non-trivial = distinct literal texts",
+        "floors": {"quick": {"_evaluations": 200000, "form/string/quoted": 5000, "form/bytes/bytes": 5000, "form/int/hex-lower": 2000,
+                             "negative/surrogate-u": 500},
+                   "thorough": {"_evaluations": 2000000}},
+        "assumptions": ASSUME_COMMON + [
+            "correct rounding of decimal doubles is judged against the host's str::parse::<f64>",
+            "i64::MIN spelled as -9223372036854775808: the exact value or a rejection is accepted",
+            "unknown escape letters and the U suffix-free forms not listed in the statement are not classified"],
+        "technique": "runtime monitoring with an independent speller oracle: value -> randomly chosen supported spelling -> compile+evaluate -> bit-exact comparison; "
+                     "malformed templates must yield CelError::Syntax",
+        "level_text": "Boundary and random int64/uint64 values (decimal, hex in both cases), finite doubles from random bit patterns in six spellings, Unicode strings over all "
+                      "planes and byte strings over 0..255 with a random escape form per character (simple, \\x, \\u, \\U, octal, raw, f-prefixed, both quotes) must evaluate to "
+                      "exactly the spelled value; sixteen malformed/out-of-range templates must be rejected with a syntax error. Exploration only.",
+        "level_note": "trusts the harness speller and the host's decimal-to-double conversion",
+    },
+    "C04": {
+        "profiles": BOTH,
+        "rule": "one evaluation = one execution of a relational operator, sort, min or max; distinct non-trivial = distinct ordered value pairs "
+                "(grid and random) and distinct lists of length >= 2",
+        "floors": {"quick": {"_evaluations": 500000, "unrelated_pairs": 1000}, "thorough": {"_evaluations": 4000000}},
+        "assumptions": ASSUME_COMMON + [
+            "model order: i128 for int/uint, IEEE for doubles, integer vs double through `as f64`, byte-wise for strings/bytes, chrono for time",
+            "not asserted: bool vs number, order between two lists/maps/nulls/types, anything involving NaN beyond ==/!= complement"],
+        "technique": "runtime monitoring: algebraic-law monitors (complement, symmetry, reflexivity, trichotomy) plus a model order over an exhaustive "
+                     "boundary grid of pairs and random values; permutation + inversion monitor for sort; first-extreme monitor for min/max",
+        "level_text": "All ordered pairs of a ~200-value boundary grid (every type) under all six relational operators, variable and literal form, are checked "
+                      "against the laws and an independent total order per group; unrelated-type comparisons must fail; random pairs, nested containers and "
+                      "lists up to 40 (2000 in thorough) elements exercise sort/min/max. Transitivity follows from agreement with the model order on all pairs. Exploration only.",
+        "level_note": "trusts the harness model order (30 lines) and canonical value rendering",
+    },
+    "C03": {
+        "profiles": ALWAYS_BOTH,
+        "digest": True,
+        "post": [profile_diff],
+        "rule": "one evaluation = one execution of `a OP b` / `-a` (variable form, literal form, literal-variable form); distinct non-trivial = "
+                "distinct ordered operand pairs with both operands numeric or bool (grid pairs and random 64-bit pairs)",
+        "floors": {"quick": {"_evaluations": 300000, "profile_cases_compared": 1000, "outcome/val": 10000, "outcome/err": 1000},
+                   "thorough": {"_evaluations": 3000000, "profile_cases_compared": 1000}},
+        "assumptions": ASSUME_COMMON + [
+            "reference model: i128 arithmetic, host IEEE-754 doubles, widening table as in the statement, truncating integer division",
+            "accepted either way: int-uint mix with uint > i64::MAX (exact or error), i64::MIN % -1 (0 or error), % on doubles (fmod or error)"],
+        "technique": "runtime monitoring with a reference-model oracle (i128 / IEEE) over an exhaustive boundary grid and random operands, "
+                     "literal-vs-variable differential, overflow-checks build vs release-like build digest diff",
+        "level_text": "Every ordered pair of the boundary grid (ints, uints, doubles, bools) under every operator, in variable, literal and mixed form, and "
+                      "under both build profiles, is compared bit-exactly with an independent i128/IEEE model; all numeric x non-numeric and non-numeric pairs "
+                      "must fail; per-case outcome digests of the two profiles are diffed. Random 64-bit operands widen the sample. Exploration only.",
+        "level_note": "trusts the harness model (40 lines of i128 arithmetic) and the host FPU; grid is finite, random part is sampling",
+    },
     "C01": {
         "profiles": BOTH,
         "rule": "one evaluation = one compile+exec (or exec of a precompiled built-in call) through the public API; "
